@@ -273,6 +273,39 @@ func main(n : int) -> int {
         exp = "".join("%d\r\n%d\r\n" % (1000 + i, 100 + i) for i in picks) + "777\r\n%d\r\n" % (50 + E - 1 + 50)
         out.append(("exc_many_handlers_T%d" % T, "func main(n : int) -> int {\n" + body + "    0\n}\n" + "\n".join(fs) + "\n",
                     dict(exc=True, shape=True, handlers=T, expect_out=exp, expect_res="I0")))
+    # every math build-in at a regular point and at each kind of irregular one (domain, pole, overflow, underflow): the fault is
+    # raised, the result is not used; and floating-point flags left behind by ordinary VM arithmetic (a product that overflows to
+    # inf, one that underflows) are NOT blamed on the next build-in.  Only comparisons of libm results are printed.
+    CL = "catch (invalid_domain) { 0 - 1 } catch (division_by_zero) { 0 - 2 } catch (overflow) { 0 - 3 } catch (underflow) { 0 - 4 }"
+    out.append(("exc_math_all", """
+func t(x : float) -> int { x > 0.5 ? 1 : 0 }
+func f_sqrt(x : float) -> int { t(sqrt(x)) } """ + CL + """
+func f_log(x : float) -> int { t(log(x)) } """ + CL + """
+func f_exp(x : float) -> int { t(exp(x)) } """ + CL + """
+func f_pow(x : float, y : float) -> int { t(pow(x, y)) } """ + CL + """
+func f_sin(x : float) -> int { t(sin(x)) } """ + CL + """
+func f_cos(x : float) -> int { t(cos(x)) } """ + CL + """
+func f_tan(x : float) -> int { t(tan(x)) } """ + CL + """
+func stale(big : float, tiny : float) -> int
+{
+    let o = big * big;
+    let u = tiny * tiny;
+    let r = sqrt(16.0);
+    let e = exp(1.0);
+    let p = pow(2.0, 3.0);
+    t(r - 3.0) + t(e - 2.0) * 10 + t(p - 7.0) * 100 + (o > big ? 1000 : 0)
+}
+catch (overflow) { 0 - 3 } catch (underflow) { 0 - 4 } catch (invalid_domain) { 0 - 1 }
+func main(n : int) -> int {
+    print(f_sqrt(4.0)); print(f_sqrt(0.0 - 4.0));
+    print(f_log(3.0)); print(f_log(0.0 - 1.0)); print(f_log(0.0));
+    print(f_exp(0.0)); print(f_exp(1000.0)); print(f_exp(0.0 - 1000.0));
+    print(f_pow(2.0, 3.0)); print(f_pow(0.0 - 8.0, 0.5)); print(f_pow(0.0, 0.0 - 1.0)); print(f_pow(10.0, 100.0)); print(f_pow(10.0, 0.0 - 100.0));
+    print(f_sin(1.0)); print(f_cos(0.0)); print(f_tan(1.0));
+    print(stale(100000000000000000000.0, 0.00000000000000000001));
+    0
+}
+""", dict(exc=True, math=True, shape=True, expect_out="".join("%d\r\n" % v for v in [1, -1, 1, -1, -2, 1, -3, -4, 1, -1, -2, -3, -4, 1, 1, 1, 1111]), expect_res="I0")))
     # failures of foreign calls are faults like any other: a nil record (also nested, before a non-nil one), a nil string, a
     # missing library, a missing symbol each raise ffi_fail, delivered to the clause of the calling function; the callee is not run
     k = rng.range(1, 9)
